@@ -191,8 +191,9 @@ CLAIMED["C06"] = dict(engine="yast",
          "ambiguity error in the dispatch cell and in next, never a candidate chosen by position; best() removes a member only because the "
          "candidate beats that member and drops the candidate only because a member beats it, with the documented specificity tables; several "
          "records of one class all contribute their bases, a group's concreteness is accumulated over all its classes, a definition is refused "
-         "only when it is itself already registered. Order-independence of best()'s fold over a non-transitive relation and consistent "
-         "renumberings (slots, groups) are not decided.",
+         "only when it is itself already registered; the specificity relation extracted from the code is not transitive (a position with unrelated "
+         "classes passes), so a single survivor of best()'s fold must be confirmed against every candidate - a defect found this way (F29: the "
+         "definition that ran depended on the order of registration) was repaired. Consistent renumberings (slots, groups) are not decided.",
     design_ref="DESIGN.md section 4, C06")
 NA = {
 }
